@@ -28,6 +28,13 @@ ENV["CARGO_NET_OFFLINE"] = "true"
 ENV.pop("RUSTFLAGS", None)
 
 JOBS = int(os.environ.get("VERIF_JOBS", "10"))
+# target directories are shared per harness crate (dependencies are compiled once); set
+# VERIF_ISOLATE=1 to give every property its own, so that several checks can run at the same time
+ISOLATE = os.environ.get("VERIF_ISOLATE", "") == "1"
+
+
+def tsuf(prop):
+    return ("__" + prop) if ISOLATE else ""
 
 
 def load_checks():
@@ -172,7 +179,7 @@ def functions_encoded(crate, harness, tdir_suffix=""):
 def extract_and_replay(crate, harness, opts, prop):
     """Second Kani run with covers off and concrete playback; then native replay (real deps)."""
     rc, out, wall = run_kani(crate, [harness], "quick", opts, extra_env={"RUSTFLAGS": "--cfg no_witness"},
-                             tdir_suffix="__" + prop + "_cex", playback=True)
+                             tdir_suffix=tsuf(prop) + "_cex", playback=True)
     m = re.search(r"let concrete_vals: Vec<Vec<u8>> = vec!\[(.*?)\n\s*\];", out, re.S)
     if not m:
         return {"extracted": False, "reason": "no concrete playback in Kani output", "wall_s": wall}
@@ -196,7 +203,7 @@ def native_replay(path):
     hdr = dict(re.findall(r"# (\w+)=(.*)", open(path).read()))
     crate, harness = hdr["crate"], hdr["harness"]
     ndir = os.path.join(ROOT, "harness", crate, "native")
-    tdir = os.path.join(TARGET, crate + "_native_" + hdr.get("property", "x"))
+    tdir = os.path.join(TARGET, crate + "_native" + tsuf(hdr.get("property", "x")))
     if os.path.exists(os.path.join(REPO, "Cargo.lock")) and not os.path.exists(os.path.join(ndir, "Cargo.lock")):
         shutil.copy(os.path.join(REPO, "Cargo.lock"), os.path.join(ndir, "Cargo.lock"))
     out = {}
@@ -269,7 +276,7 @@ def main():
     # gate: the dependency models must agree with the real crates (native differential run)
     mc_dir = os.path.join(ROOT, "modelcheck")
     mc = {"ran": False}
-    mc_t = os.path.join(TARGET, "modelcheck__" + prop)
+    mc_t = os.path.join(TARGET, "modelcheck" + tsuf(prop))
     rc_, o_, w_ = sh(["cargo", "build", "--offline", "--release", "--target-dir", mc_t], cwd=mc_dir)
     if rc_ == 0:
         rounds = 2000 if tier == "quick" else 20000
@@ -299,7 +306,7 @@ def main():
         if not sel:
             problems.append("no harness selected in crate %s" % crate)
             continue
-        results, out, wall = run_kani(crate, sel, tier, opts, tdir_suffix="__" + prop)
+        results, out, wall = run_kani(crate, sel, tier, opts, tdir_suffix=tsuf(prop))
         # resource trouble (out of memory / timeout while many CBMC processes share the machine) is
         # retried with few processes before it is allowed to make the check inconclusive
         if "__build_error__" not in results:
@@ -307,7 +314,7 @@ def main():
             if again:
                 opts2 = dict(opts)
                 opts2["harness_timeout_min"] = {tier: 2 * opts.get("harness_timeout_min", {}).get(tier, 10 if tier == "quick" else 60)}
-                r2, out2, wall2 = run_kani(crate, again, tier, opts2, tdir_suffix="__" + prop, jobs=3)
+                r2, out2, wall2 = run_kani(crate, again, tier, opts2, tdir_suffix=tsuf(prop), jobs=3)
                 wall += wall2
                 if "__build_error__" not in r2:
                     for h, r in r2.items():
@@ -359,9 +366,9 @@ def main():
             else:
                 problems.append("%s: %s" % (h, r["status"]))
         rep = sel[0]
-        f = functions_encoded(crate, rep, "__" + prop)
+        f = functions_encoded(crate, rep, tsuf(prop))
         for h in sel[1:40:7]:
-            f = sorted(set(f) | set(functions_encoded(crate, h, "__" + prop)))
+            f = sorted(set(f) | set(functions_encoded(crate, h, tsuf(prop))))
         fns |= set(f)
         groups_ev.append({"crate": crate, "harnesses": len(sel), "wall_s": round(wall, 1), "opts": opts})
 
@@ -371,7 +378,7 @@ def main():
         for nh in grp.get("native", []):
             crate = grp["crate"]
             ndir = os.path.join(ROOT, "harness", crate, "native")
-            tdir = os.path.join(TARGET, crate + "_native_" + prop)
+            tdir = os.path.join(TARGET, crate + "_native" + tsuf(prop))
             if os.path.exists(os.path.join(REPO, "Cargo.lock")) and not os.path.exists(os.path.join(ndir, "Cargo.lock")):
                 shutil.copy(os.path.join(REPO, "Cargo.lock"), os.path.join(ndir, "Cargo.lock"))
             rc, o, _ = sh(["cargo", "build", "--offline", "--release", "--target-dir", tdir, "--bin", "replay"], cwd=ndir)
